@@ -104,7 +104,7 @@ func readPlan(r *hx.Rng, bs int, size int64, ex []ext4.V04Extent) (int64, []int)
 			ns[i] = 8*bs + r.Intn(8*bs)
 		}
 	}
-	if r.Chance(30) {
+	if r.Chance(30) && size < 1<<26 {
 		// make sure the sequence reaches the end of the file
 		ns = append(ns, int(size)+7, 3)
 	}
@@ -263,7 +263,11 @@ func gdCase(c *hx.Ctx, id string, b []byte, gdSize int) {
 		return
 	}
 	var d ext4.VerifGroupDescriptor
-	res := guard(func() error { var e error; d, e = ext4.VerifGroupDescriptorAll(append([]byte(nil), b...), uint16(gdSize)); return e })
+	res := guard(func() error {
+		var e error
+		d, e = ext4.VerifGroupDescriptorAll(append([]byte(nil), b...), uint16(gdSize))
+		return e
+	})
 	c.Case(id, "ext4ref.gd", fmt.Sprintf("gdsize=%d", gdSize), "d="+hex.EncodeToString(b))
 	if res.bad() {
 		c.Impl(id, badStr(res))
@@ -409,6 +413,28 @@ func deepSynth(c *hx.Ctx, r *hx.Rng) {
 				ex = append(ex, ext4.V04Extent{FileBlock: last.FileBlock, Start: uint64(r.Intn(devBlocks - 1)), Count: 1})
 			}
 		}
+		far := false
+		if len(ex) > 0 && r.Chance(14) {
+			// far extents: everything from extent j0 on moves to logical offsets around and beyond 4 GiB
+			// (fileBlock*blockSize no longer fits 32 bits), behind a giant hole
+			far = true
+			j0 := r.Intn(len(ex))
+			var base uint32
+			switch r.Intn(4) {
+			case 0:
+				base = uint32((int64(1)<<32)/int64(bs)) - uint32(fb) + uint32(r.Intn(6)) - 3 // straddles 4 GiB
+			case 1:
+				base = uint32((int64(1) << 32) / int64(bs))
+			case 2:
+				base = uint32((int64(1)<<32)/int64(bs))*uint32(1+r.Intn(3)) + uint32(r.Intn(1000))
+			default:
+				base = ^uint32(0) - uint32(fb) - uint32(r.Intn(50)) - 64
+			}
+			for j := j0; j < len(ex); j++ {
+				ex[j].FileBlock += base
+			}
+			fb += int(base)
+		}
 		var size int64
 		switch r.Intn(4) {
 		case 0:
@@ -426,10 +452,23 @@ func deepSynth(c *hx.Ctx, r *hx.Rng) {
 			continue
 		}
 		fl := ext4.V04SyntheticFile(dev, uint32(bs), ex, uint64(size), 0, off, 0)
-		calls, _, end := runReads(dev, fl, lens)
+		calls, data, end := runReads(dev, fl, lens)
 		c.Case(id, "ext4ref.sread", fmt.Sprintf("bs=%d", bs), fmt.Sprintf("size=%d", size), fmt.Sprintf("off=%d", off),
 			fmt.Sprintf("devsize=%d", devSize), "pat=1", "ex="+v04ExtStr(ex), "ns="+natsStr(lens))
 		c.Impl(id, "calls="+callsStr(calls), fmt.Sprintf("end=%d", end))
+		if !malformed {
+			// the property itself, stated on the pattern device: byte p of the file is the device byte its extent maps
+			// it to, or zero in a hole; never more than remain
+			oid := id + "/spec"
+			if msg := synthReadSpec(bs, size, off, ex, data, end); msg != "" {
+				c.Fail(oid, "-", msg, fmt.Sprintf("ext4ref.sread bs=%d size=%d off=%d ex=%s ns=%s", bs, size, off, v04ExtStr(ex), natsStr(lens)))
+			} else {
+				c.OK(oid)
+			}
+		}
+		if far {
+			c.Stat("sread-synthetic-far-4GiB")
+		}
 		if malformed {
 			c.Stat("sread-synthetic-malformed")
 		} else {
@@ -517,4 +556,37 @@ func deepSynth(c *hx.Ctx, r *hx.Rng) {
 		c.Stat("inoloc-synthetic")
 	}
 	_ = binary.LittleEndian
+}
+
+// synthReadSpec compares what a Read sequence starting at off returned (data, final offset end) with the plain
+// meaning of a well-formed extent list on the pattern device.
+func synthReadSpec(bs int, size, off int64, ex []ext4.V04Extent, data []byte, end int64) string {
+	if off > size {
+		if len(data) != 0 {
+			return fmt.Sprintf("%d bytes returned from offset %d beyond the size %d", len(data), off, size)
+		}
+		return ""
+	}
+	if int64(len(data)) > size-off {
+		return fmt.Sprintf("%d bytes returned from offset %d of a %d-byte file: more than remain", len(data), off, size)
+	}
+	if end != off+int64(len(data)) {
+		return fmt.Sprintf("offset after the reads is %d, want %d", end, off+int64(len(data)))
+	}
+	for i, b := range data {
+		p := off + int64(i)
+		want := byte(0)
+		for _, e := range ex {
+			lo := int64(e.FileBlock) * int64(bs)
+			hi := lo + int64(e.Count)*int64(bs)
+			if p >= lo && p < hi {
+				want = patByte(int64(e.Start)*int64(bs) + (p - lo))
+				break
+			}
+		}
+		if b != want {
+			return fmt.Sprintf("byte at file offset %d is %#x, want %#x (extent map / hole)", p, b, want)
+		}
+	}
+	return ""
 }
